@@ -225,7 +225,7 @@ def parse_mc3(
     if rounds.startswith(_UZERO) and rounds != _UZERO:
         raise exc.ZeroPaddedRoundsError(handler)
     if rounds:
-        rounds = int(rounds, rounds_base)
+        rounds = ascii_int(rounds, rounds_base)
     elif default_rounds is None:
         raise exc.MalformedHashError(handler, "empty rounds field")
     else:
@@ -259,6 +259,16 @@ def parse_mc3(
 #         raise exc.MalformedHashError(handler)
 
 
+def ascii_int(source, base=10):
+    """
+    int() for the numeric fields of a hash string: takes the digits the formats write, nothing else
+    (int() itself also accepts surrounding whitespace, a sign, underscores and non-ascii digits).
+    """
+    if not (source.isascii() and source.isalnum()):
+        raise ValueError(f"invalid integer field: {source!r}")
+    return int(source, base)
+
+
 def parse_int(source, base=10, default=None, param="value", handler=None):
     """
     helper to parse an integer config field
@@ -272,7 +282,7 @@ def parse_int(source, base=10, default=None, param="value", handler=None):
     if source.startswith(_UZERO) and source != _UZERO:
         raise exc.MalformedHashError(handler, f"zero-padded {param} field")
     if source:
-        return int(source, base)
+        return ascii_int(source, base)
     if default is None:
         raise exc.MalformedHashError(handler, f"empty {param} field")
     return default
